@@ -808,12 +808,12 @@ func TestVerifC51(t *testing.T) {
 	vals := nf + nh
 	tPairs := [][2]int64{{0, 1}, {999, 1000}, {-1001, -1000}, {1700000000123, 1700000000124}, {c51APIMinMs, c51APIMaxMs}, {-1, 1}}
 	if r.Thorough() {
-		tPairs = nil
-		for i := 0; i < nt; i++ {
-			for j := 0; j < nt; j++ {
-				if tss[i] < tss[j] && (i+j)%3 == 0 {
-					tPairs = append(tPairs, [2]int64{tss[i], tss[j]})
-				}
+		// every pair of neighbours in the sorted timestamp alphabet
+		sorted := append([]int64{}, tss...)
+		sort.Slice(sorted, func(i, j int) bool { return sorted[i] < sorted[j] })
+		for i := 0; i+1 < len(sorted); i++ {
+			if sorted[i] < sorted[i+1] {
+				tPairs = append(tPairs, [2]int64{sorted[i], sorted[i+1]})
 			}
 		}
 	}
